@@ -214,10 +214,9 @@ theorem entries_coef {c : NContent} {k v : Name} {r : NRxn} {u : Use} (h : (k, r
   exact ⟨_, hv, rfl⟩
 
 /-- **input-level sufficient condition** for the hypothesis of the round-trip theorem -/
-theorem refsResolve_of_input (c : NContent) (hk : keysInjective c = true) (ha : argsNoDup c = true) :
-    refsResolve c = true := by
-  unfold refsResolve
-  rw [toSymbolicRepr_nil]
+theorem input_facts (c : NContent) (hk : keysInjective c = true) :
+    (argsNoDup c = true → ((genProgram (symOf c)).defs.all fun kd => !hasDup kd.2.params) = true)
+    ∧ (genProgram (symOf c)).srcOk = true := by
   -- the four generator steps on the symbolic representation of c
   have hV : ∀ kv ∈ (symOf c).variables,
       SymValIn c (fun n => freeName (takenOf (symOf c)) ("init_" ++ n)) kv.2 := by
@@ -262,22 +261,22 @@ theorem refsResolve_of_input (c : NContent) (hk : keysInjective c = true) (ha : 
     (genDerived (symOf c).derived
       (genInits (takenOf (symOf c)) Call.addParameter (symOf c).parameters
         (genInits (takenOf (symOf c)) Call.addVariable (symOf c).variables []).1).1).1 hR
-  have hfrom : FromEntries c (genMxlpy (symOf c)).defs :=
+  have hfrom : FromEntries c (genProgram (symOf c)).defs :=
     s4.from_entries (s3.from_entries (s2.from_entries (s1.from_entries (by intro kd h; cases h))))
   have hinj : ∀ e1 ∈ entries c, ∀ e2 ∈ entries c, e1.1 = e2.1 → e1.2.fid = e2.2.fid := by
     intro e1 h1 e2 h2 heq
     have := List.all_eq_true.mp (List.all_eq_true.mp hk e1 h1) e2 h2
     simpa [heq] using this
-  simp only [Program.refsOk, Bool.and_eq_true, List.all_eq_true]
+  simp only [Program.srcOk, List.all_eq_true]
   constructor
-  · intro kd hkd
+  · intro ha kd hkd
     have := List.all_eq_true.mp ha _ (hfrom kd hkd)
     simpa using this
   · intro call hcall r hr
     -- r is one of the references of the four segments
-    have hmem : r ∈ (genMxlpy (symOf c)).build.flatMap Call.refs :=
+    have hmem : r ∈ (genProgram (symOf c)).build.flatMap Call.refs :=
       List.mem_flatMap.mpr ⟨call, hcall, hr⟩
-    have hsplit : (genMxlpy (symOf c)).build.flatMap Call.refs
+    have hsplit : (genProgram (symOf c)).build.flatMap Call.refs
         = (genInits (takenOf (symOf c)) Call.addVariable (symOf c).variables []).2.flatMap Call.refs
           ++ (genInits (takenOf (symOf c)) Call.addParameter (symOf c).parameters
               (genInits (takenOf (symOf c)) Call.addVariable (symOf c).variables []).1).2.flatMap Call.refs
@@ -288,14 +287,14 @@ theorem refsResolve_of_input (c : NContent) (hk : keysInjective c = true) (ha : 
               (genDerived (symOf c).derived
                 (genInits (takenOf (symOf c)) Call.addParameter (symOf c).parameters
                   (genInits (takenOf (symOf c)) Call.addVariable (symOf c).variables []).1).1).1).2.flatMap Call.refs := by
-      simp [genMxlpy, List.flatMap_append]
+      simp [genProgram, List.flatMap_append]
     rw [hsplit] at hmem
-    have hpresent : r.key ∈ keysOf (genMxlpy (symOf c)).defs ∧ (r.key, (⟨r.src, r.args⟩ : Use)) ∈ entries c := by
-      have hdefs : (genMxlpy (symOf c)).defs = (genReactions (takenOf (symOf c)) (symOf c).reactions
+    have hpresent : r.key ∈ keysOf (genProgram (symOf c)).defs ∧ (r.key, (⟨r.src, r.args⟩ : Use)) ∈ entries c := by
+      have hdefs : (genProgram (symOf c)).defs = (genReactions (takenOf (symOf c)) (symOf c).reactions
               (genDerived (symOf c).derived
                 (genInits (takenOf (symOf c)) Call.addParameter (symOf c).parameters
                   (genInits (takenOf (symOf c)) Call.addVariable (symOf c).variables []).1).1).1).1 := by
-        simp [genMxlpy]
+        simp [genProgram]
       rw [hdefs]
       rcases List.mem_append.mp hmem with h | h
       · rcases List.mem_append.mp h with h | h
@@ -310,5 +309,40 @@ theorem refsResolve_of_input (c : NContent) (hk : keysInjective c = true) (ha : 
     have := hinj _ hde _ hin rfl
     simp only at this
     simp [refOk, hd, this]
+
+/-- **input-level sufficient condition** for the hypothesis of the round-trip theorem -/
+theorem refsResolve_of_input (c : NContent) (hk : keysInjective c = true) (ha : argsNoDup c = true) :
+    refsResolve c = true := by
+  unfold refsResolve
+  rw [toSymbolicRepr_nil]
+  have h := input_facts c hk
+  have h2 : ((genProgram (symOf c)).build.all fun call => call.refs.all (refOk (genProgram (symOf c)).defs)) = true := h.2
+  simp only [Program.refsOk, Bool.and_eq_true]
+  exact ⟨h.1 ha, h2⟩
+
+/-- … and for the weaker hypothesis that only excludes F-C11-1 -/
+theorem refsSrcOk_of_input (c : NContent) (hk : keysInjective c = true) : refsSrcOk c = true := by
+  unfold refsSrcOk
+  rw [toSymbolicRepr_nil]
+  exact (input_facts c hk).2
+
+/-- **round trip, repeated arguments allowed**: the model is rebuilt, or generation raises ValueError -/
+theorem roundTrip_or_raises (c : NContent) (hc : Canonical c) (h : refsSrcOk c = true) :
+    roundTrip [] c = .ok c.toContent ∨ ∃ m, roundTrip [] c = .error (.valueError m) := by
+  cases hnd : ((genProgram (symOf c)).defs.all fun kd => !hasDup kd.2.params) with
+  | true =>
+    left
+    refine roundTrip_ok c hc ?_
+    unfold refsSrcOk at h
+    unfold refsResolve
+    rw [toSymbolicRepr_nil] at h ⊢
+    simp only [Program.refsOk, Bool.and_eq_true]
+    exact ⟨hnd, h⟩
+  | false =>
+    right
+    refine ⟨"an argument is repeated", ?_⟩
+    unfold roundTrip
+    rw [toSymbolicRepr_nil]
+    simp [bind, Except.bind, genMxlpy, hnd]
 
 end Mxl.C11
